@@ -78,6 +78,13 @@ pub enum Op {
     SetAttrNs(H, u8),
     DeclareN(H, u8, u8),
     CloneAppend(H, H),
+    // remaining public mutators
+    AppendPi(H),
+    AppendNamespace(H, u8, u8),
+    NewDocumentWithElement(H),
+    ElementMutSetName(H),
+    NsNodeSetNamespace(H, u8),
+    SetPiTarget(H),
 }
 
 pub const NS4: [&str; 4] = [X, Y, "urn:z", "urn:w"];
@@ -145,6 +152,12 @@ impl Op {
             SetAttrNs(..) => "set_attribute(namespaced)",
             DeclareN(..) => "set_namespace(nN)",
             CloneAppend(..) => "clone_node+append",
+            AppendPi(..) => "append_processing_instruction",
+            AppendNamespace(..) => "append_namespace",
+            NewDocumentWithElement(..) => "new_document_with_element",
+            ElementMutSetName(..) => "element_mut.set_name",
+            NsNodeSetNamespace(..) => "namespace_node_mut.set_namespace",
+            SetPiTarget(..) => "pi_mut.set_target",
         }
     }
     pub fn args(&self) -> Vec<H> {
@@ -152,6 +165,7 @@ impl Op {
         match self {
             Append(a, b) | Prepend(a, b) | InsertAfter(a, b) | InsertBefore(a, b) | Replace(a, b) | AnyAppend(a, b) | AppendAttrNode(a, b) | AppendNsNode(a, b) | CloneAppend(a, b) => vec![*a, *b],
             AppendElementNs(a, _) | SetAttrNs(a, _) | DeclareN(a, ..) => vec![*a],
+            AppendPi(a) | AppendNamespace(a, ..) | NewDocumentWithElement(a) | ElementMutSetName(a) | NsNodeSetNamespace(a, _) | SetPiTarget(a) => vec![*a],
             Detach(a) | Remove(a) | Unwrap(a) | Wrap(a) | CloneNode(a) | CloneWithPrefixes(a) | AppendText(a, _) | AppendElement(a) | AppendComment(a) | SetAttr(a, ..) | RemoveAttr(a, _) | SetNs(a, ..)
             | RemoveNs(a, _) | AttrsClear(a) | NssClear(a) | SetElementName(a) | SetText(a, _) | SetComment(a, _) | SetPiData(a, _) | TextContentMut(a, _) | SetAttrValue(a, _) | RemoveWs(a) | CreateMissingPrefixes(a) | Dedup(a) => {
                 vec![*a]
@@ -341,6 +355,43 @@ impl World {
                     Ok(Some(self.xot.new_namespace_node(p, u)))
                 }
                 NewDocument => Ok(Some(self.xot.new_document())),
+                AppendPi(..) => {
+                    let n = self.xot.add_name("npi");
+                    e(self.xot.append_processing_instruction(nodes[0], n, Some("d")))
+                }
+                AppendNamespace(_, p, u) => {
+                    let c = xot::xmlname::CreateNamespace::new(&mut self.xot, PREFIXES[*p as usize], URIS[*u as usize]);
+                    en(self.xot.append_namespace(nodes[0], &c))
+                }
+                NewDocumentWithElement(..) => en(self.xot.new_document_with_element(nodes[0])),
+                ElementMutSetName(..) => {
+                    let ns = self.xot.add_namespace(X);
+                    let n = self.xot.add_name_ns("z", ns);
+                    match self.xot.element_mut(nodes[0]) {
+                        Some(el) => {
+                            el.set_name(n);
+                            Ok(None)
+                        }
+                        None => Err("NotElement".into()),
+                    }
+                }
+                NsNodeSetNamespace(_, u) => {
+                    let u = self.xot.add_namespace(URIS[*u as usize]);
+                    match self.xot.namespace_node_mut(nodes[0]) {
+                        Some(n) => {
+                            n.set_namespace(u);
+                            Ok(None)
+                        }
+                        None => Err("NotNamespace".into()),
+                    }
+                }
+                SetPiTarget(..) => {
+                    let t = self.xot.add_name("t2");
+                    match self.xot.processing_instruction_mut(nodes[0]) {
+                        Some(p) => p.set_target::<String>(t).map(|_| None).map_err(|e| format!("{:?}", e)),
+                        None => Err("NotPi".into()),
+                    }
+                }
                 Parse(i) => self.xot.parse(PARSE_TEXTS[*i as usize]).map(Some).map_err(|e| format!("{:?}", e)),
                 ParseFragment(i) => self.xot.parse_fragment(FRAGMENT_TEXTS[*i as usize]).map(Some).map_err(|e| format!("{:?}", e)),
                 SetConsolidation(b) => {
